@@ -2,6 +2,7 @@ import Lean.Data.Json
 import CbiVerif.Drv.PP
 import CbiVerif.Drv.Metrics
 import CbiVerif.Drv.C06
+import CbiVerif.Drv.Dups
 /-! Native JSON-lines driver: one request object per line, one reply per line.
 Each area registers its ops in `CbiVerif/Drv/<Area>.lean`. -/
 open Lean
@@ -9,7 +10,8 @@ open Lean
 def handlerTable : List (String × (Json → Json)) :=
   (ppOps.map fun o => (o, handlePP)) ++
   CbiVerif.Drv.Metrics.handlers ++
-  CbiVerif.Drv.C06.handlers
+  CbiVerif.Drv.C06.handlers ++
+  CbiVerif.Drv.Dups.handlers
 
 def handle (j : Json) : Json :=
   match j.getObjValAs? String "op" with
